@@ -1,12 +1,12 @@
 package props
 
 import (
-	"syscall"
-	"os"
 	"fmt"
+	"os"
 	"regexp"
 	"runtime/debug"
 	"strings"
+	"syscall"
 
 	"verifharness/internal/core"
 )
@@ -47,7 +47,6 @@ func guard(c *core.C, what string, detail any, f func()) (panicked bool) {
 	f()
 	return false
 }
-
 
 // scratchBase creates the scratch directory of a storage case. With otherDevice it is placed on a file system
 // other than the one holding the system temporary directory (tmpfs under /dev/shm) when the sandbox has one: a
